@@ -15,8 +15,10 @@ package inmem
 //@ pred expiredAt(r kvs.Record, t time.Time) = r.ExpiresAt != nil && before(*r.ExpiresAt, t)
 //@ pred (s *service) wf() = s != nil && s.recs != nil && s.verChange != nil &&
 //@      forall(k, string, has(s.recs, k) ==> s.recs[k].Key == k && in(s.recs[k].Version, issued)) &&
-//@      forall(k, string, has(s.verChange, k) ==> s.verChange[k] != nil && allocated(s.verChange[k]) && s.verChange[k].done != nil && allocated(s.verChange[k].done) && !closed(s.verChange[k].done) && s.verChange[k].waiters >= 1) &&
-//@      forall(k, string, forall(j, string, has(s.verChange, k) && has(s.verChange, j) && k != j ==> s.verChange[k].done != s.verChange[j].done))
+//@      forall(k, string, has(s.verChange, k) ==> has(s.recs, k) && s.verChange[k] != nil && allocated(s.verChange[k]) && s.verChange[k].done != nil && allocated(s.verChange[k].done) && !closed(s.verChange[k].done) && s.verChange[k].waiters >= 1) &&
+//@      forall(k, string, forall(j, string, has(s.verChange, k) && has(s.verChange, j) && k != j ==> s.verChange[k].done != s.verChange[j].done)) &&
+//@      forall(a, *waiter, allocated(a) ==> a.done == nil || allocated(a.done)) &&
+//@      forall(a, *waiter, forall(b, *waiter, allocated(a) && allocated(b) && a != b && a.done != nil ==> a.done != b.done))
 // key k was live (present, not expired) in the pre-state, judged at the final clock value
 // all state of the store is guarded by s.lock; between critical sections other goroutines may change it arbitrarily within wf()
 // (waiter.done is written once, before the record is published under the lock: immutable afterwards)
@@ -30,6 +32,12 @@ package inmem
 // k is stored exactly as given, under the fresh version v
 //@ pred (s *service) stored(k string, rec kvs.Record, v string) = has(s.recs, k) && s.recs[k].Key == k && s.recs[k].Value == rec.Value && s.recs[k].ExpiresAt == rec.ExpiresAt && s.recs[k].Version == v && !in(v, old(issued)) && in(v, issued)
 
+// [C07] mutators' side: every key whose record was removed, created or re-versioned by the call has had its waiter record
+// closed and removed (no missed change); every waiter record still in the table is an old one, untouched (nobody disturbed)
+//@ pred (s *service) changesNotified() = forall(k, string, old(has(s.verChange, k)) && (!has(s.recs, k) || !old(has(s.recs, k)) || s.recs[k].Version != old(s.recs[k].Version)) ==> !has(s.verChange, k)) &&
+//@      forall(k, string, old(has(s.verChange, k)) && !has(s.verChange, k) ==> closed(old(s.verChange[k].done)))
+//@ pred (s *service) waitersKept() = forall(k, string, has(s.verChange, k) ==> old(has(s.verChange, k)) && s.verChange[k] == old(s.verChange[k]) && s.verChange[k].waiters == old(s.verChange[k].waiters))
+
 //@ func (s *service) notifyWaiters(key string)
 //@   inline
 //@ func (s *service) live(key string) (kvs.Record, bool)
@@ -40,7 +48,8 @@ package inmem
 //@   ensures r0 != nil && fresh(r0)
 
 //@ func (s *service) Create(ctx context.Context, record kvs.Record) (string, error)
-//@   props C02 C03 C06
+//@   props C02 C03 C06 C07
+//@   ensures [C07] s.changesNotified() && s.waitersKept()
 //@   requires s.wf() && ctx != nil
 //@   modifies s.recs[*], s.verChange[*], issued, clock
 //@   ensures s.wf() && s.othersKept(record.Key)
@@ -49,7 +58,8 @@ package inmem
 //@   ensures ctx.err == nil && !s.wasLive(record.Key) ==> r1 == nil && s.stored(record.Key, record, r0)
 
 //@ func (s *service) Get(ctx context.Context, key string) (kvs.Record, error)
-//@   props C02 C03 C06
+//@   props C02 C03 C06 C07
+//@   ensures [C07] s.changesNotified() && s.waitersKept()
 //@   requires s.wf()
 //@   modifies s.recs[*], s.verChange[*], clock
 //@   ensures s.wf() && s.othersKept(key)
@@ -58,14 +68,16 @@ package inmem
 //@   ensures [C06] old(has(s.recs, key)) && !has(s.recs, key) ==> expiredAt(old(s.recs[key]), clock)
 
 //@ func (s *service) Put(ctx context.Context, record kvs.Record) (kvs.Record, error)
-//@   props C02 C03 C06
+//@   props C02 C03 C06 C07
+//@   ensures [C07] s.changesNotified() && s.waitersKept()
 //@   requires s.wf()
 //@   modifies s.recs[*], s.verChange[*], issued
 //@   ensures s.wf() && s.othersKept(record.Key)
 //@   ensures r1 == nil && s.stored(record.Key, record, r0.Version) && r0 == s.recs[record.Key]
 
 //@ func (s *service) CasByVersion(ctx context.Context, record kvs.Record) (kvs.Record, error)
-//@   props C02 C03 C06
+//@   props C02 C03 C06 C07
+//@   ensures [C07] s.changesNotified() && s.waitersKept()
 //@   requires s.wf()
 //@   modifies s.recs[*], s.verChange[*], issued, clock
 //@   ensures s.wf() && s.othersKept(record.Key)
@@ -76,7 +88,8 @@ package inmem
 //@   ensures [C06] old(has(s.recs, record.Key)) && !has(s.recs, record.Key) ==> expiredAt(old(s.recs[record.Key]), clock)
 
 //@ func (s *service) Delete(ctx context.Context, key string) error
-//@   props C02 C03 C06
+//@   props C02 C03 C06 C07
+//@   ensures [C07] s.changesNotified() && s.waitersKept()
 //@   requires s.wf()
 //@   modifies s.recs[*], s.verChange[*], clock
 //@   ensures s.wf() && s.othersKept(key) && !has(s.recs, key)
@@ -87,7 +100,8 @@ package inmem
 //@ pred keyIn(records []kvs.Record, lo int, hi int, k string) = exists(i, lo, hi, records[i].Key == k)
 
 //@ func (s *service) PutMany(ctx context.Context, records []kvs.Record) error
-//@   props C02 C03 C06
+//@   props C02 C03 C06 C07
+//@   ensures [C07] s.changesNotified() && s.waitersKept()
 //@   requires s.wf()
 //@   modifies s.recs[*], s.verChange[*], issued
 //@   ensures r0 == nil && s.wf()
@@ -96,6 +110,7 @@ package inmem
 //@   ensures forall(k, string, !keyIn(records, 0, len(records), k) ==> has(s.recs, k) == old(has(s.recs, k)) && (has(s.recs, k) ==> s.recs[k] == old(s.recs[k])))
 //@   loop 1
 //@     invariant s.wf() && 0 - 1 <= rangeindex && rangeindex <= len(records) - 1 && records == records0
+//@     invariant s.changesNotified() && s.waitersKept()
 //@     invariant forall(v, string, in(v, old(issued)) ==> in(v, issued))
 //@     invariant forall(i, 0, rangeindex + 1, has(s.recs, records[i].Key) && !in(s.recs[records[i].Key].Version, old(issued)))
 //@     invariant forall(i, 0, rangeindex + 1, !keyIn(records, i+1, rangeindex + 1, records[i].Key) ==> s.recs[records[i].Key].Value == records[i].Value && s.recs[records[i].Key].ExpiresAt == records[i].ExpiresAt)
@@ -103,7 +118,8 @@ package inmem
 //@     decreases len(records) - rangeindex
 
 //@ func (s *service) GetMany(ctx context.Context, keys ...string) ([]*kvs.Record, error)
-//@   props C02 C03 C06
+//@   props C02 C03 C06 C07
+//@   ensures [C07] s.changesNotified() && s.waitersKept()
 //@   requires s.wf()
 //@   modifies s.recs[*], s.verChange[*], clock
 //@   ensures r1 == nil && s.wf() && len(r0) == len(keys) && fresh(r0)
@@ -113,6 +129,7 @@ package inmem
 //@   ensures [C06] forall(k, string, old(has(s.recs, k)) && !has(s.recs, k) ==> expiredAt(old(s.recs[k]), clock))
 //@   loop 1
 //@     invariant s.wf() && 0 - 1 <= rangeindex && rangeindex <= len(keys) - 1 && keys == keys0 && !before(clock, old(clock))
+//@     invariant s.changesNotified() && s.waitersKept()
 //@     invariant len(res) == len(keys) && fresh(res) && off(res) == 0
 //@     invariant forall(i, rangeindex + 1, len(keys), res[i] == nil)
 //@     invariant forall(i, 0, rangeindex + 1, res[i] != nil ==> fresh(res[i]) && old(has(s.recs, keys[i])) && *res[i] == old(s.recs[keys[i]]) && !expiredAt(old(s.recs[keys[i]]), old(clock)))
@@ -125,7 +142,8 @@ package inmem
 //@ pred nodup(xs []string) = forall(i, 0, len(xs), forall(j, i + 1, len(xs), xs[i] != xs[j]))
 
 //@ func (s *service) ListKeys(ctx context.Context, pattern string) (iterable.Iterator[string], error)
-//@   props C02 C03 C06
+//@   props C02 C03 C06 C07
+//@   ensures [C07] s.changesNotified() && s.waitersKept()
 //@   requires s.wf()
 //@   modifies clock
 //@   ensures s.wf() && s.allKept()
@@ -133,7 +151,7 @@ package inmem
 //@   ensures r1 == nil ==> forall(i, 0, len(cast(*keysIterator, r0).res), has(s.recs, cast(*keysIterator, r0).res[i]) && !expiredAt(s.recs[cast(*keysIterator, r0).res[i]], clock) && globMatch(compiled(pattern), cast(*keysIterator, r0).res[i]))
 //@   ensures r1 == nil ==> forall(k, string, has(s.recs, k) && !expiredAt(s.recs[k], clock) && globMatch(compiled(pattern), k) ==> inSlice(cast(*keysIterator, r0).res, k))
 //@   loop 1
-//@     invariant s.wf() && s.allKept() && g == compiled(pattern) && now == clock
+//@     invariant s.wf() && s.allKept() && g == compiled(pattern) && now == clock && s.changesNotified() && s.waitersKept()
 //@     invariant forall(k, string, rangeVisited(k) ==> has(s.recs, k))
 //@     invariant forall(i, 0, len(res), rangeVisited(res[i]) && !expiredAt(s.recs[res[i]], clock) && globMatch(g, res[i]))
 //@     invariant forall(k, string, rangeVisited(k) && !expiredAt(s.recs[k], clock) && globMatch(g, k) ==> inSlice(res, k))
@@ -154,15 +172,28 @@ package inmem
 // ---- C07 (reduced scope): WaitForVersionChange ----
 // The function is a loop of critical sections; between them other goroutines change the store arbitrarily within wf()
 // (monitor rule).  Postconditions speak about the state at the END OF ITS LAST CRITICAL SECTION.
+// effect of the registering critical section (Lock #1 .. Unlock #1 counted from the end) on the waiter table
+//@ pred (s *service) registered(key string, hadL bool, recL *waiter, wL int, hadU bool, recU *waiter, wU int) =
+//@      hadU && ite(hadL, recU == recL && wU == wL + 1, wU == 1)
+// effect of the cancelling critical section: mine is the channel this call registered on
+//@ pred (s *service) cancelled(key string, mine chan struct{}, hadL bool, recL *waiter, chL chan struct{}, wL int) =
+//@      ite(hadL && chL == mine,
+//@          ite(wL == 1, !has(s.verChange, key) && closed(mine),
+//@                       has(s.verChange, key) && s.verChange[key] == recL && s.verChange[key].waiters == wL - 1 && !closed(mine)),
+//@          has(s.verChange, key) == hadL && (hadL ==> s.verChange[key] == recL && s.verChange[key].waiters == wL))
+//@ pred (s *service) othersSince(key string) = forall(j, string, j != key ==> has(s.verChange, j) == atLock(has(s.verChange, j)) && (has(s.verChange, j) ==> s.verChange[j] == atLock(s.verChange[j]) && s.verChange[j].waiters == atLock(s.verChange[j].waiters) && closed(s.verChange[j].done) == atLock(closed(s.verChange[j].done))))
+
 //@ func (s *service) WaitForVersionChange(ctx context.Context, key string, ver string) error
 //@   props C07
 //@   requires s.wf() && ctx != nil
 //@   modifies everything
-// result soundness: nil only if the key exists (live) with another version; ErrNotExist only if it is absent; otherwise the context's error, and the context is done
 //@   ensures r0 == nil ==> has(s.recs, key) && s.recs[key].Version != ver && !expiredAt(s.recs[key], clock)
 //@   ensures r0 == errors.ErrNotExist && ctx.err != errors.ErrNotExist ==> !has(s.recs, key)
 //@   ensures r0 != nil && r0 != errors.ErrNotExist ==> r0 == ctx.err && ctx.err != nil
-// the bookkeeping is consistent again: every waiter record is registered under an existing... open, distinct channel with at least one waiter
 //@   ensures s.wf()
+//@   ensures [C07] giveup: r0 != nil && r0 != errors.ErrNotExist ==> s.registered(key, atLock(has(s.verChange, key), 1), atLock(s.verChange[key], 1), atLock(s.verChange[key].waiters, 1), atUnlock(has(s.verChange, key), 1), atUnlock(s.verChange[key], 1), atUnlock(s.verChange[key].waiters, 1))
+//@   ensures [C07] giveup: r0 != nil && r0 != errors.ErrNotExist ==> s.cancelled(key, atUnlock(s.verChange[key].done, 1), atLock(has(s.verChange, key)), atLock(s.verChange[key]), atLock(s.verChange[key].done), atLock(s.verChange[key].waiters)) && s.othersSince(key)
+//@   ensures [C07] quiet: r0 == nil || r0 == errors.ErrNotExist ==> s.othersSince(key)
+//@   ensures [C07] quiet: r0 == nil ==> has(s.verChange, key) == atLock(has(s.verChange, key)) && (has(s.verChange, key) ==> s.verChange[key] == atLock(s.verChange[key]) && s.verChange[key].waiters == atLock(s.verChange[key].waiters) && !closed(s.verChange[key].done))
 //@   loop 1
 //@     invariant s != nil && ctx != nil
